@@ -120,6 +120,78 @@ Example lang_chain_example :
   /\ chain_spec (snd (chain_of e)) (base_elems e init_m) = [VNum 12; VNum 6; VNum 0].
 Proof. vm_compute. split; reflexivity. Qed.
 
+(* ---- user-defined iterables whose iter() is not the identity ---- *)
+Lemma upd_upd : forall {A} (l : list A) i x y, upd (upd l i x) i y = upd l i y.
+Proof.
+  intros A l. induction l as [|h t IH]; intros i x y; [reflexivity|].
+  destruct i as [|j]; cbn [upd]; [reflexivity|]. rewrite IH. reflexivity.
+Qed.
+
+(* whatever was traversed before (any cursor position of the Deck, any number of earlier cursors of the others),
+   the iterator that x.iter() returns hands out the WHOLE sequence the iterable denotes *)
+Theorem obj_iter_rep : forall st id,
+  (forall cards pos, nth_error (heap st) id = Some (ODeck cards pos) ->
+     Rep 1 (snd (obj_iter st id)) (fst (obj_iter st id)) (obj_elems KDeck cards 0)) /\
+  (forall items, nth_error (heap st) id = Some (OBag items) ->
+     Rep 1 (snd (obj_iter st id)) (fst (obj_iter st id)) (obj_elems KBag items 0)) /\
+  (forall vid, nth_error (heap st) id = Some (OVBag vid) ->
+     Rep 1 (snd (obj_iter st id)) (fst (obj_iter st id)) (obj_elems KVBag (get_vec st vid) 0)) /\
+  (forall vid k, nth_error (heap st) id = Some (OChained vid k) ->
+     exists F, Rep F (snd (obj_iter st id)) (fst (obj_iter st id)) (obj_elems KChained (get_vec st vid) k)).
+Proof.
+  intros st id. repeat split.
+  - intros cards pos E. unfold obj_iter. rewrite E. cbn [fst snd obj_elems].
+    eapply (rep_veclike _ _ id (ODeck cards 0) cards 0 (ODeck cards)); [|reflexivity|reflexivity].
+    cbn [set_obj heap]. apply nth_error_upd_same. eapply nth_error_lt; eauto.
+  - intros items E. unfold obj_iter. rewrite E. cbn [fst snd obj_elems alloc_obj].
+    eapply (rep_veclike _ _ _ (OScript items 0) items 0 (OScript items)); [|reflexivity|reflexivity].
+    cbn [heap]. apply nth_error_app_here.
+  - intros vid E. unfold obj_iter. rewrite E. cbn [fst snd obj_elems alloc_obj].
+    eapply (rep_veclike _ _ _ (OVecIter vid 0) (get_vec st vid) 0 (OVecIter vid)); [|reflexivity|reflexivity].
+    cbn [heap]. apply nth_error_app_here.
+  - intros vid k E. unfold obj_iter. rewrite E. cbn [fst snd obj_elems alloc_obj heap vecs].
+    set (h := heap st).
+    set (st3 := {| heap := ((h ++ [OVecIter vid 0]) ++ [OFilter IsEven (length h)]) ++ [OMap (AddK k) (length (h ++ [OVecIter vid 0]))];
+                   vecs := vecs st |}).
+    assert (EA : nth_error (heap st3) (length h) = Some (OVecIter vid 0)).
+    { subst st3. cbn [heap]. rewrite <- !app_assoc. cbn [app]. apply nth_error_app_here. }
+    assert (EB : nth_error (heap st3) (length (h ++ [OVecIter vid 0])) = Some (OFilter IsEven (length h))).
+    { subst st3. cbn [heap]. rewrite <- (app_assoc (h ++ [OVecIter vid 0])). cbn [app]. apply nth_error_app_here. }
+    assert (EC : nth_error (heap st3) (length ((h ++ [OVecIter vid 0]) ++ [OFilter IsEven (length h)]))
+                 = Some (OMap (AddK k) (length (h ++ [OVecIter vid 0])))).
+    { subst st3. cbn [heap]. apply nth_error_app_here. }
+    pose proof (rep_veclike _ st3 (length h) (OVecIter vid 0) (get_vec st vid) 0 (OVecIter vid) EA eq_refl eq_refl) as R0.
+    cbn [skipn] in R0.
+    pose proof (rep_filter _ _ _ _ R0 _ _ EB) as R1.
+    pose proof (rep_map _ _ _ _ R1 _ _ EC) as R2.
+    eexists. exact R2.
+Qed.
+Print Assumptions obj_iter_rep.
+
+(* calling iter() on what iter() returned changes nothing: x.iter().map(f) (explicit) and x.map(f) (direct, core.yl
+   calls self.iter() itself) build the same adapter *)
+Theorem obj_iter_idem : forall st id,
+  obj_iter (snd (obj_iter st id)) (fst (obj_iter st id)) = obj_iter st id.
+Proof.
+  intros st id. unfold obj_iter at 2 3 4. destruct (nth_error (heap st) id) as [o|] eqn:E.
+  2:{ cbn [fst snd]. unfold obj_iter. rewrite E. reflexivity. }
+  destruct o; cbn [fst snd]; try (unfold obj_iter; rewrite E; reflexivity).
+  - unfold obj_iter. cbn [set_obj heap]. rewrite nth_error_upd_same by (eapply nth_error_lt; eauto).
+    unfold set_obj. cbn [heap vecs]. rewrite upd_upd. reflexivity.
+  - unfold alloc_obj, obj_iter. cbn [fst snd heap]. rewrite nth_error_app_here. reflexivity.
+  - unfold alloc_obj, obj_iter. cbn [fst snd heap]. rewrite nth_error_app_here. reflexivity.
+  - unfold alloc_obj. cbn [fst snd heap vecs]. unfold obj_iter. cbn [heap]. rewrite nth_error_app_here. reflexivity.
+Qed.
+Print Assumptions obj_iter_idem.
+
+(* second traversal after the first exhausted it: a Deck run to its end and traversed again *)
+Example deck_twice_example :
+  eval_mech (mkProg false false true [SObj 0 KDeck [VNum 1; VNum 2; VNum 3] 0;
+                                      SCollect (EObj 0); SCollect (EFilter IsEven (EObj 0));
+                                      SCollect (EMap (MulK 2) (EFilter (GtK 1) (EObj 0))); SReduce RSum (VNum 0) (EObj 0)])
+  = map b ["[1,2,3,]"; "[2,]"; "[4,6,]"; "6"; "end"]%string.
+Proof. vm_compute. reflexivity. Qed.
+
 (* ---- the stack of hidden locals ---- *)
 Definition ok_ctl (c : ctl) : Prop := c <> CReturn /\ c <> CFuel.
 
